@@ -1,231 +1,429 @@
 // C10 correspondence harness: runs the real fcppt::container::bitfield on the operation lines
 // described in /verif/lean/FcpptModel/Drv/C10.lean and prints the same canonical result lines.
+//
+// The real templates are instantiated in c10_w8/16/32/64.cpp (c10_inst.hpp) for enums with
+// 1, 3, 5, 8, 9, 17, 33 and 64 enumerators; this file only holds the protocol.
+// Every public member / free function of libs/core/include/fcppt/container/bitfield is reached:
+//   object(initializer_list), object(array_type const&), operator[] const / mutable, set, get,
+//   array() const / mutable (read and write through begin()/end(), get_unsafe), null();
+//   proxy copy / move construction, proxy = proxy (re-binding), proxy = bool, proxy -> bool on
+//   proxy<array> and proxy<array const>;
+//   |=(index) |=(object) &= ^= ~ &(index) |(index) | & ^ (operators.hpp), == != (comparison.hpp),
+//   is_subset_eq, init, hash / std::hash, underlying_value, operator<< (char and wchar_t).
+// Not reachable: object(no_init const&) does not compile on this tree (notes/C10.md).
 #include "common/vh.hpp"
+#include "c10_iface.hpp"
 
-#include <fcppt/container/bitfield/comparison.hpp>
-#include <fcppt/container/bitfield/hash.hpp>
-#include <fcppt/container/bitfield/init.hpp>
-#include <fcppt/container/bitfield/is_subset_eq.hpp>
-#include <fcppt/container/bitfield/object.hpp>
-#include <fcppt/container/bitfield/operators.hpp>
-#include <fcppt/container/bitfield/std_hash.hpp>
-#include <fcppt/cast/int_to_enum.hpp>
-#include <fcppt/cast/enum_to_int.hpp>
-
+#include <algorithm>
 #include <cstdint>
+#include <memory>
 #include <optional>
 #include <string>
 #include <vector>
 
 namespace
 {
-// enums with N enumerators: e0 .. e(N-1)
-enum class e1 { v0, fcppt_maximum = v0 };
-enum class e3 { v0, v1, v2, fcppt_maximum = v2 };
-enum class e8 { v0, v1, v2, v3, v4, v5, v6, v7, fcppt_maximum = v7 };
-enum class e9 { v0, v1, v2, v3, v4, v5, v6, v7, v8, fcppt_maximum = v8 };
-enum class e17 { v0, v1, v2, v3, v4, v5, v6, v7, v8, v9, v10, v11, v12, v13, v14, v15, v16, fcppt_maximum = v16 };
-// an enum with a narrow underlying type as well
-enum class e5 : unsigned char { v0, v1, v2, v3, v4, fcppt_maximum = v4 };
+using c10::factory;
+using c10::ull;
+using c10::val;
+using vp = std::unique_ptr<val>;
 
-template <typename E, typename W>
-struct inst
+std::optional<std::vector<ull>> dots(std::string const &s)
 {
-  using bf = fcppt::container::bitfield::object<E, W>;
-  static constexpr unsigned n = static_cast<unsigned>(bf::static_size::value);
-
-  static E en(unsigned i) { return static_cast<E>(i); }
-
-  static bf from_mask(unsigned long long m)
+  std::vector<ull> r;
+  if (s.empty())
+    return std::nullopt;
+  std::size_t pos = 0;
+  while (true)
   {
-    // through the initializer-list constructor, one element at a time via operator|= as well
-    bf r{bf::null()};
+    std::size_t const next = s.find('.', pos);
+    std::string const part = s.substr(pos, next == std::string::npos ? next : next - pos);
+    if (part.empty() || part.find_first_not_of("0123456789") != std::string::npos || part.size() > 20)
+      return std::nullopt;
+    r.push_back(vh::to_ull(part));
+    if (next == std::string::npos)
+      break;
+    pos = next + 1;
+  }
+  return r;
+}
+
+std::string b01(bool b) { return b ? "1" : "0"; }
+
+struct ctx
+{
+  factory const &f;
+  unsigned n;
+
+  bool mask_ok(ull m) const { return n >= 64U || (m >> n) == 0U; }
+  bool word_ok(ull x) const { return f.wbits >= 64U || (x >> f.wbits) == 0U; }
+
+  // one element at a time: operator|=(index), operator|(object) with a one-element initializer list, operator|(index) in turn
+  vp from_mask(ull m) const
+  {
+    vp r{f.null()};
     for (unsigned i = 0; i < n; ++i)
       if ((m >> i) & 1U)
       {
-        if (i % 2U == 0U)
-          r |= en(i);
+        if (i % 3U == 0U)
+        {
+          bool ok = false;
+          r->or_idx_assign(i, ok);
+          if (!ok)
+            return f.null();
+        }
+        else if (i % 3U == 1U)
+          r = r->bor(*f.il({i}));
         else
-          r = r | bf{en(i)};
+          r = r->or_idx(i);
       }
     return r;
   }
 
-  static unsigned long long obs(bf const &b)
+  // a set through one initializer list
+  vp il_mask(ull m) const
   {
-    unsigned long long m = 0;
+    std::vector<unsigned> es;
+    for (unsigned i = 0; i < n; ++i)
+      if ((m >> i) & 1U)
+        es.push_back(i);
+    return f.il(es);
+  }
+
+  // members as seen through get, const operator[], operator&(index) and the mutable operator[]
+  ull obs(val const &b) const
+  {
+    ull m = 0;
+    vp copy{b.clone()};
     for (unsigned i = 0; i < n; ++i)
     {
-      bool const g1 = b.get(en(i));
-      bool const g2 = b[en(i)];
-      bool const g3 = b & en(i);
-      if (g1 != g2 || g1 != g3)
-        return ~0ULL; // get / operator[] / operator& disagree: never equals a model mask
+      bool const g1 = b.get(i);
+      bool const g2 = b.idx_const(i);
+      bool const g3 = b.and_idx(i);
+      bool const g4 = copy->idx_mut(i);
+      if (g1 != g2 || g1 != g3 || g1 != g4)
+        return ~0ULL - 1U; // the readers disagree: never equals a model mask
       if (g1)
         m |= 1ULL << i;
     }
+    if (copy->words() != b.words())
+      return ~0ULL - 2U; // reading changed something
     return m;
   }
 
-  static bf canon(bf const &b)
+  std::string ws(val const &b) const
   {
-    return fcppt::container::bitfield::init<bf>([&b](E const e) { return b.get(e); });
+    std::vector<ull> const w{b.words()};
+    std::string r{vh::join(w)};
+    if (w.size() != f.nwords || w != b.words_unsafe())
+      r += "#";
+    return r;
   }
 
-  static std::size_t hash(bf const &b)
+  std::string mw(val const &b) const { return std::to_string(obs(b)) + "/" + ws(b); }
+
+  ull hash(val const &b) const
   {
-    std::size_t const h1 = fcppt::container::bitfield::hash<bf>{}(b);
-    std::size_t const h2 = std::hash<bf>{}(b);
+    ull const h1 = b.hash_fcppt();
+    ull const h2 = b.hash_std();
     return h1 == h2 ? h1 : ~h1; // both hash objects must agree
   }
 
-  static bool is_canon(bf const &b)
+  bool is_canon(val const &b) const
   {
-    bf const c{canon(b)};
-    return b == c && !(b != c) && hash(b) == hash(c);
+    unsigned next = 0;
+    bool order_ok = true;
+    // init must ask for every enumerator exactly once, in order
+    vp const c{f.init([&b, &next, &order_ok](unsigned const e) {
+      if (e != next)
+        order_ok = false;
+      ++next;
+      return b.get(e);
+    })};
+    return order_ok && next == n && b.eq(*c) && !b.ne(*c) && hash(b) == hash(*c);
   }
 
-  static std::string pair_line(unsigned long long A, unsigned long long B)
+  // the part of a `pair` line that depends on the first operand only
+  std::string pair_a(val const &a) const
   {
-    bf const a{from_mask(A)};
-    bf const b{from_mask(B)};
-    bf const o{a | b};
-    bf const n_{a & b};
-    bf const x{a ^ b};
-    bf const c{~a};
-    // the assigning forms must agree with the binary ones
-    bf o2{a}; o2 |= b;
-    bf n2{a}; n2 &= b;
-    bf x2{a}; x2 ^= b;
-    bool const assign_ok = o2 == o && n2 == n_ && x2 == x;
-    bool const e = a == b;
-    std::string heq = "-";
-    if (e)
-      heq = hash(a) == hash(b) ? "1" : "0";
-    return "or=" + std::to_string(obs(o)) + " and=" + std::to_string(obs(n_)) +
-           " xor=" + std::to_string(obs(x)) + " na=" + std::to_string(obs(c)) +
-           " sub=" + (fcppt::container::bitfield::is_subset_eq(a, b) ? "1" : "0") +
-           " eq=" + (e ? "1" : "0") + " ne=" + (a != b ? "1" : "0") + " heq=" + heq +
-           " canon=" + (assign_ok && is_canon(o) && is_canon(n_) && is_canon(x) && is_canon(c) ? "1" : "0");
+    vp const c{a.bnot()};
+    bool r1 = false, r2 = false, r3 = false;
+    // the same object on both sides
+    vp s1{a.clone()}; s1->or_assign(*s1, r1);
+    vp s2{a.clone()}; s2->and_assign(*s2, r2);
+    vp s3{a.clone()}; s3->xor_assign(*s3, r3);
+    vp const s4{a.bor(a)}, s5{a.band(a)}, s6{a.bxor(a)};
+    bool const self_ok = s4->eq(*s1) && s5->eq(*s2) && s6->eq(*s3) && r1 && r2 && r3;
+    bool const self_eq = a.eq(a) && !a.ne(a);
+    bool const self_sub = a.subset(a);
+    return "na=" + mw(*c) + " ha=" + std::to_string(hash(a)) + " hc=" + std::to_string(hash(*c)) + " self=" + ws(*s1) + "/" +
+           ws(*s2) + "/" + ws(*s3) + "/" + b01(self_eq) + b01(self_sub) + " canonc=" + b01(self_ok && is_canon(*c));
   }
 
-  static std::string pairs_digest(unsigned long long A)
+  std::string pair_b(val const &a, ull A, ull B) const
   {
+    vp const b{from_mask(B)};
+    std::vector<ull> const a0{a.words()};
+    std::vector<ull> const b0{b->words()};
+    vp const o{a.bor(*b)};
+    vp const n_{a.band(*b)};
+    vp const x{a.bxor(*b)};
+    // the assigning forms must agree with the binary ones and return their left operand
+    bool r1 = false, r2 = false, r3 = false;
+    vp o2{a.clone()}; o2->or_assign(*b, r1);
+    vp n2{a.clone()}; n2->and_assign(*b, r2);
+    vp x2{a.clone()}; x2->xor_assign(*b, r3);
+    bool const assign_ok = o2->eq(*o) && n2->eq(*n_) && x2->eq(*x) && r1 && r2 && r3;
+    bool const e = a.eq(*b);
+    bool const ne = a.ne(*b);
+    bool const sub = a.subset(*b);
+    std::string r = "or=" + mw(*o) + " and=" + mw(*n_) + " xor=" + mw(*x) + " sub=" + b01(sub) +
+                    " eq=" + b01(e) + " ne=" + b01(ne) + " hx=" + std::to_string(hash(*x)) + " canon=" +
+                    b01(assign_ok && is_canon(*o) && is_canon(*n_) && is_canon(*x));
+    // no observer or operator changed its operands
+    r += " pure=" + b01(a.words() == a0 && b->words() == b0 && a0 == from_mask(A)->words() && b0 == from_mask(B)->words());
+    return r;
+  }
+
+  std::string pair_line(ull A, ull B) const
+  {
+    vp const a{from_mask(A)};
+    std::string const rb{pair_b(*a, A, B)};
+    return rb + " " + pair_a(*a);
+  }
+
+  std::string pairs_digest(ull A) const
+  {
+    vp const a{from_mask(A)};
+    std::string sa;
     std::uint64_t h = vh::fnv_init;
-    for (unsigned long long B = 0; B < (1ULL << n); ++B)
-      h = vh::fnv(h, pair_line(A, B));
+    for (ull B = 0; B < (1ULL << n); ++B)
+    {
+      std::string const rb{pair_b(*a, A, B)};
+      // the operand-only part once per digest, but after the first pair so that a changed operand would show
+      if (B == 0)
+        sa = " " + pair_a(*a);
+      h = vh::fnv(h, rb + sa);
+    }
     return "D " + vh::hex64(h);
   }
 
-  static std::optional<bf> rpn(std::vector<std::string> const &toks, std::size_t from, std::size_t to)
+  std::string bit_line(ull A, unsigned i) const
   {
-    std::vector<bf> st;
+    vp const base{from_mask(A)};
+    unsigned const j = (i + 1U) % n;
+    bool const g = base->get(i);
+    std::string r;
+    std::string rd;
+    std::string ps;
+    bool rest = true;
+    for (int v = 1; v >= 0; --v)
+    {
+      bool const val_ = v == 1;
+      std::string const sv = std::to_string(v);
+      bool ok = false;
+      vp s{base->clone()}; s->set(i, val_);
+      vp t{base->clone()}; t->idx_assign(i, val_);
+      vp m{base->clone()}; m->proxy_moved_assign(i, val_, ok); rest = rest && ok;
+      vp c{base->clone()}; c->proxy_rebind_assign(j, i, val_, ok); rest = rest && ok;
+      r += "S" + sv + "=" + ws(*s) + " T" + sv + "=" + ws(*t) + " M" + sv + "=" + ws(*m) + " C" + sv + "=" + ws(*c) + " ";
+      if (val_)
+      {
+        vp o{base->clone()}; o->or_idx_assign(i, ok); rest = rest && ok;
+        vp const o2{base->or_idx(i)};
+        r += "O1=" + ws(*o) + " o1=" + ws(*o2) + " ";
+      }
+      rd += std::string(val_ ? "" : ",") + std::to_string(obs(*s));
+      vp ps_{base->clone()};
+      ps += b01(ps_->proxy_sees_write(i, val_));
+      // save - mutate - restore
+      s->set(i, g);
+      if (!s->eq(*base) || s->ne(*base))
+        rest = false;
+    }
+    return r + "rd=" + rd + " ps=" + ps + " cr=" + b01(base->const_proxy_rebind_read(i, j)) + " rest=" + b01(rest) + " g=" + b01(g);
+  }
+
+  std::string bits_digest(ull A) const
+  {
+    std::uint64_t h = vh::fnv_init;
+    for (unsigned i = 0; i < n; ++i)
+      h = vh::fnv(h, bit_line(A, i));
+    return "D " + vh::hex64(h);
+  }
+
+  std::optional<vp> rpn(std::vector<std::string> const &toks, std::size_t from, std::size_t to) const
+  {
+    std::vector<vp> st;
     for (std::size_t k = from; k < to; ++k)
     {
       std::string const &t = toks[k];
-      char const c = t[0];
-      auto arg = [&t] { return vh::to_ull(t.substr(1)); };
-      if (c == 'L')
-      {
-        unsigned long long const m = arg();
-        // really through the initializer-list constructor
-        bf r{bf::null()};
-        switch (n)
-        {
-        default:
-        {
-          std::vector<E> es;
-          for (unsigned i = 0; i < n; ++i)
-            if ((m >> i) & 1U)
-              es.push_back(en(i));
-          if (es.size() == 0) r = bf{};
-          else if (es.size() == 1) r = bf{es[0]};
-          else if (es.size() == 2) r = bf{es[0], es[1]};
-          else if (es.size() == 3) r = bf{es[0], es[1], es[2]};
-          else
-          {
-            r = bf{es[0], es[1], es[2]};
-            for (std::size_t q = 3; q < es.size(); ++q)
-              r.set(es[q], true);
-          }
-        }
-        }
-        st.push_back(r);
-      }
-      else if (c == 'I')
-      {
-        unsigned long long const m = arg();
-        st.push_back(fcppt::container::bitfield::init<bf>(
-            [m](E const e) { return ((m >> static_cast<unsigned>(e)) & 1ULL) != 0; }));
-      }
-      else if (c == 'S' || c == 'U')
-      {
-        unsigned long long const i = arg();
-        if (st.empty() || i >= n)
-          return std::nullopt;
-        if (i % 2U == 0U)
-          st.back().set(en(static_cast<unsigned>(i)), c == 'S');
-        else
-          st.back()[en(static_cast<unsigned>(i))] = (c == 'S');
-      }
-      else if (c == '|' || c == '&' || c == '^')
+      bool ok = true;
+      if (t == "|" || t == "&" || t == "^" || t == "|=" || t == "&=" || t == "^=")
       {
         if (st.size() < 2)
           return std::nullopt;
-        bf const b{st.back()};
+        vp const b{std::move(st.back())};
         st.pop_back();
-        bf const a{st.back()};
-        st.pop_back();
-        st.push_back(c == '|' ? a | b : c == '&' ? a & b : a ^ b);
+        vp &a = st.back();
+        if (t == "|") a = a->bor(*b);
+        else if (t == "&") a = a->band(*b);
+        else if (t == "^") a = a->bxor(*b);
+        else if (t == "|=") a->or_assign(*b, ok);
+        else if (t == "&=") a->and_assign(*b, ok);
+        else a->xor_assign(*b, ok);
+        if (!ok)
+          return std::nullopt;
+        continue;
       }
-      else if (c == '~')
+      if (t == "|@" || t == "&@" || t == "^@" || t == "|2" || t == "&2" || t == "^2" || t == "=@" || t == "~")
       {
         if (st.empty())
           return std::nullopt;
-        st.back() = ~st.back();
+        vp &a = st.back();
+        if (t == "|@") a->or_assign(*a, ok);
+        else if (t == "&@") a->and_assign(*a, ok);
+        else if (t == "^@") a->xor_assign(*a, ok);
+        else if (t == "|2") a = a->bor(*a);
+        else if (t == "&2") a = a->band(*a);
+        else if (t == "^2") a = a->bxor(*a);
+        else if (t == "=@") a->assign(*a);
+        else a = a->bnot();
+        if (!ok)
+          return std::nullopt;
+        continue;
+      }
+      if (t == "N") { st.push_back(f.null()); continue; }
+      if (t == "Z") { st.push_back(f.il({})); continue; }
+      char const c = t[0];
+      auto const args = dots(t.substr(1));
+      if (!args)
+        return std::nullopt;
+      std::vector<ull> const &a = *args;
+      if (c == 'L' && a.size() == 1)
+      {
+        if (!mask_ok(a[0])) return std::nullopt;
+        st.push_back(il_mask(a[0]));
+      }
+      else if (c == 'D')
+      {
+        if (a.size() > 64) return std::nullopt;
+        std::vector<unsigned> es;
+        for (auto i : a)
+        {
+          if (i >= n) return std::nullopt;
+          es.push_back(static_cast<unsigned>(i));
+        }
+        st.push_back(f.il(es));
+      }
+      else if (c == 'I' && a.size() == 1)
+      {
+        ull const m = a[0];
+        if (!mask_ok(m)) return std::nullopt;
+        st.push_back(f.init([m](unsigned const e) { return ((m >> e) & 1ULL) != 0; }));
+      }
+      else if (c == 'A')
+      {
+        if (a.size() != f.nwords) return std::nullopt;
+        for (ull x : a)
+          if (!word_ok(x)) return std::nullopt;
+        st.push_back(f.from_array(a));
+      }
+      else if ((c == 'S' || c == 'U' || c == 'T' || c == 'F' || c == 'O' || c == 'o') && a.size() == 1)
+      {
+        if (st.empty() || a[0] >= n) return std::nullopt;
+        vp &b = st.back();
+        unsigned const e = static_cast<unsigned>(a[0]);
+        if (c == 'S') b->set(e, true);
+        else if (c == 'U') b->set(e, false);
+        else if (c == 'T') b->idx_assign(e, true);
+        else if (c == 'F') b->idx_assign(e, false);
+        else if (c == 'O') b->or_idx_assign(e, ok);
+        else b = b->or_idx(e);
+      }
+      else if (c == 'M' && a.size() == 2)
+      {
+        if (st.empty() || a[0] >= n || a[1] >= 2) return std::nullopt;
+        st.back()->proxy_moved_assign(static_cast<unsigned>(a[0]), a[1] == 1, ok);
+      }
+      else if (c == 'C' && a.size() == 3)
+      {
+        if (st.empty() || a[0] >= n || a[1] >= n || a[2] >= 2) return std::nullopt;
+        st.back()->proxy_rebind_assign(static_cast<unsigned>(a[0]), static_cast<unsigned>(a[1]), a[2] == 1, ok);
+      }
+      else if (c == 'W' && a.size() == 2)
+      {
+        if (st.empty() || a[0] >= f.nwords || !word_ok(a[1])) return std::nullopt;
+        st.back()->poke(static_cast<std::size_t>(a[0]), a[1]);
       }
       else
+        return std::nullopt;
+      if (!ok)
         return std::nullopt;
     }
     if (st.size() != 1)
       return std::nullopt;
-    return st.back();
+    return std::move(st.back());
   }
 
-  static std::string expr_line(std::vector<std::string> const &toks)
+  static std::string uv(val const &b)
+  {
+    auto const u = b.underlying();
+    return u ? std::to_string(*u) : "-";
+  }
+
+  static std::string out(val const &b)
+  {
+    std::string const r{b.out()};
+    if (std::wstring(r.begin(), r.end()) != b.wout())
+      return "WIDE-MISMATCH";
+    return r;
+  }
+
+  std::string expr_line(std::vector<std::string> const &toks) const
   {
     std::size_t semi = 3;
     while (semi < toks.size() && toks[semi] != ";")
       ++semi;
     if (semi >= toks.size())
       return "bad-op";
-    auto const a = rpn(toks, 3, semi);
-    auto const b = rpn(toks, semi + 1, toks.size());
-    if (!a || !b)
+    auto const pa = rpn(toks, 3, semi);
+    auto const pb = rpn(toks, semi + 1, toks.size());
+    if (!pa || !pb)
       return "bad-op";
-    bool const e = *a == *b;
-    std::string heq = "-";
-    if (e)
-      heq = hash(*a) == hash(*b) ? "1" : "0";
-    return "m1=" + std::to_string(obs(*a)) + " m2=" + std::to_string(obs(*b)) + " eq=" + (e ? "1" : "0") +
-           " ne=" + (*a != *b ? "1" : "0") + " heq=" + heq +
-           " sub=" + (fcppt::container::bitfield::is_subset_eq(*a, *b) ? "1" : "0") +
-           " canon=" + (is_canon(*a) && is_canon(*b) ? "1" : "0");
+    val const &a = **pa;
+    val const &b = **pb;
+    return "m1=" + mw(a) + " m2=" + mw(b) + " eq=" + b01(a.eq(b)) + " ne=" + b01(a.ne(b)) +
+           " h1=" + std::to_string(hash(a)) + " h2=" + std::to_string(hash(b)) +
+           " sub=" + b01(a.subset(b)) + " bus=" + b01(b.subset(a)) +
+           " canon=" + b01(is_canon(a)) + b01(is_canon(b)) + " uv=" + uv(a) + "," + uv(b) + " out=" + out(a);
   }
 
-  static std::string handle(std::vector<std::string> const &t)
+  std::string handle(std::vector<std::string> const &t) const
   {
     if (t[0] == "pair" && t.size() == 5)
     {
       auto const A = vh::to_ull(t[3]), B = vh::to_ull(t[4]);
-      if (A >= (1ULL << n) || B >= (1ULL << n)) return "bad-op";
+      if (!mask_ok(A) || !mask_ok(B)) return "bad-op";
       return pair_line(A, B);
     }
     if (t[0] == "pairs" && t.size() == 4)
     {
       auto const A = vh::to_ull(t[3]);
-      if (A >= (1ULL << n)) return "bad-op";
+      if (n > 16U || !mask_ok(A)) return "bad-op";
       return pairs_digest(A);
+    }
+    if (t[0] == "bit" && t.size() == 5)
+    {
+      auto const A = vh::to_ull(t[3]), i = vh::to_ull(t[4]);
+      if (!mask_ok(A) || i >= n) return "bad-op";
+      return bit_line(A, static_cast<unsigned>(i));
+    }
+    if (t[0] == "bits" && t.size() == 4)
+    {
+      auto const A = vh::to_ull(t[3]);
+      if (!mask_ok(A)) return "bad-op";
+      return bits_digest(A);
     }
     if (t[0] == "expr")
       return expr_line(t);
@@ -233,35 +431,48 @@ struct inst
   }
 };
 
-template <typename E>
-std::string by_word(unsigned w, std::vector<std::string> const &t)
+// `mask w k`: fcppt::bit::shifted_mask<W>(k);  `test w x k`: fcppt::bit::test(x, shifted_mask<W>(k))
+std::string bit_ops(std::vector<std::string> const &t)
 {
-  switch (w)
+  unsigned const w = static_cast<unsigned>(vh::to_ull(t[1]));
+  if (w != 8 && w != 16 && w != 32 && w != 64)
+    return "bad-op";
+  if (t[0] == "mask" && t.size() == 3)
   {
-  case 8: return inst<E, std::uint8_t>::handle(t);
-  case 16: return inst<E, std::uint16_t>::handle(t);
-  case 32: return inst<E, std::uint32_t>::handle(t);
-  case 64: return inst<E, std::uint64_t>::handle(t);
-  default: return "bad-op";
+    unsigned const k = static_cast<unsigned>(vh::to_ull(t[2]));
+    if (k >= w) return "bad-op";
+    return std::to_string(w == 8 ? c10::shifted_mask_w8(k) : w == 16 ? c10::shifted_mask_w16(k) : w == 32 ? c10::shifted_mask_w32(k) : c10::shifted_mask_w64(k));
   }
+  if (t[0] == "test" && t.size() == 4)
+  {
+    ull const x = vh::to_ull(t[2]);
+    unsigned const k = static_cast<unsigned>(vh::to_ull(t[3]));
+    if (k >= w || (w < 64 && (x >> w) != 0U)) return "bad-op";
+    return b01(w == 8 ? c10::bit_test_w8(x, k) : w == 16 ? c10::bit_test_w16(x, k) : w == 32 ? c10::bit_test_w32(x, k) : c10::bit_test_w64(x, k));
+  }
+  return "bad-op";
 }
 
 std::string handle(std::vector<std::string> const &t)
 {
   if (t.size() < 3)
     return "bad-op";
+  if (t[0] == "mask" || t[0] == "test")
+    return bit_ops(t);
   unsigned const n = static_cast<unsigned>(vh::to_ull(t[1]));
   unsigned const w = static_cast<unsigned>(vh::to_ull(t[2]));
-  switch (n)
+  factory const *f = nullptr;
+  switch (w)
   {
-  case 1: return by_word<e1>(w, t);
-  case 3: return by_word<e3>(w, t);
-  case 5: return by_word<e5>(w, t);
-  case 8: return by_word<e8>(w, t);
-  case 9: return by_word<e9>(w, t);
-  case 17: return by_word<e17>(w, t);
-  default: return "bad-op";
+  case 8: f = c10::factory_w8(n); break;
+  case 16: f = c10::factory_w16(n); break;
+  case 32: f = c10::factory_w32(n); break;
+  case 64: f = c10::factory_w64(n); break;
+  default: break;
   }
+  if (f == nullptr || f->n != n || f->wbits != w)
+    return "bad-op";
+  return ctx{*f, n}.handle(t);
 }
 }
 
